@@ -63,6 +63,10 @@ PROPS = {
     "C04": dict(harness="c04_ps5", concurrent=True,
                 runs=dict(quick=dict(plain=100000, asan=15000, tsan=15000),
                           thorough=dict(plain=2000000, asan=300000, tsan=300000)),
+                expected_hook_probes=["ps5.big_step.flipped", "ps5.big_step.unflipped", "ps5.big_step.multiple_parts", "ps5.big_step.equal_bucket_done",
+                                      "ps5.seq_sample_sort_step.flipped", "ps5.seq_sample_sort_step.unflipped", "ps5.free_work.sample_sort_level",
+                                      "ps5.free_work.mkqs_level", "ps5.mkqs.bktcache_reallocated", "ps5.lcp_of_flipped_step", "ps5.lcp_of_unflipped_step",
+                                      "ps5.smallsort.all_done.freed_mkqs_level", "ps5.smallsort.all_done.freed_sample_sort_level"],
                 real=["tlx/sort/strings_parallel.hpp", "tlx/sort/strings/parallel_sample_sort.hpp", "tlx/sort/strings/sample_sort_tools.hpp",
                       "tlx/sort/strings/string_ptr.hpp", "tlx/sort/strings/string_set.hpp", "tlx/sort/strings/insertion_sort.hpp",
                       "tlx/thread_pool.cpp", "tlx/thread_pool.hpp", "tlx/multi_timer.cpp", "tlx/logger/core.cpp", "tlx/die/core.cpp"],
@@ -83,6 +87,9 @@ PROPS = {
     "C02": dict(harness="c02_btree", concurrent=True, single_task=True,
                 runs=dict(quick=dict(plain=200000, asan=40000),
                           thorough=dict(plain=4000000, asan=800000)),
+                expected_hook_probes=["btree.%s.%s.case%d" % (a, b, c) for a in ("erase_one", "erase_iter") for b in ("leaf", "inner") for c in range(1, 7)] +
+                                     ["btree.split_leaf_node", "btree.split_inner_node", "btree.merge_leaves", "btree.merge_inner", "btree.shift_left_leaf",
+                                      "btree.shift_right_leaf", "btree.shift_left_inner", "btree.shift_right_inner", "btree.bulk_load"],
                 real=["tlx/container/btree.hpp", "tlx/container/btree_set.hpp", "tlx/container/btree_multiset.hpp",
                       "tlx/container/btree_map.hpp", "tlx/container/btree_multimap.hpp", "tlx/die/core.cpp"],
                 stub=["allocator (sim::Alloc as the Allocator argument, rebound to leaf and inner node types): seeded recycling, poisoning, quarantine, canaries, ledger",
@@ -215,6 +222,8 @@ class Agg:
         self.rprobes = collections.Counter()
         self.probes = collections.Counter()
         self.probe_runs = collections.Counter()
+        self.hook_probes = collections.Counter()
+        self.hook_probe_runs = collections.Counter()
         self.strat = collections.Counter()
         self.threads = collections.Counter()
         self.fps = set()
@@ -257,6 +266,9 @@ class Agg:
             for k, v in rec.get("p", {}).items():
                 self.probes[k] += v
                 self.probe_runs[k] += 1
+            for k, v in rec.get("hp", {}).items():
+                self.hook_probes[k] += v
+                self.hook_probe_runs[k] += 1
             if "ops" in rec and len(self.samples) < 3 and rec.get("ok"):
                 self.samples.append(rec)
             if not rec.get("ok"):
@@ -776,6 +788,9 @@ def main():
             runtime_probes=dict(agg.rprobes),
             harness_probes=dict(agg.probes),
             harness_probe_runs=dict(agg.probe_runs),
+            repo_hook_probes=dict(agg.hook_probes),
+            repo_hook_probe_runs=dict(agg.hook_probe_runs),
+            repo_hook_probes_expected_but_zero=[k for k in spec.get("expected_hook_probes", []) if agg.hook_probes.get(k, 0) == 0],
             probes_at_zero=zero_probes,
             strategy_mix=dict(agg.strat),
             threads_histogram={str(k): v for k, v in sorted(agg.threads.items())},
